@@ -317,3 +317,95 @@ func H17Groups() {
 		}
 	}
 }
+
+// H17Stable: a table of n >= 13 rows (the size at which the standard library's
+// unstable sort stops being an insertion sort) in which the insignificant rows
+// all tie (delta key 0) and are interleaved with significant rows of distinct
+// deltas of both signs: after sorting by delta the rows are ordered by key and
+// the tied rows are still in first-appearance order. The new value of one
+// significant row is arbitrary.
+func H17Stable() {
+	h17Vals, h17Next = nil, 0
+	n := vndParam("rows")
+	ord := vndParam("order")
+	pat := vndParam("pattern")
+	name := func(i int) string { return string([]byte{'a' + byte(i/10), '0' + byte(i%10)}) }
+	sig := make([]bool, n)
+	for i := range sig {
+		switch pat {
+		case 0:
+			sig[i] = i%3 == 0
+		case 1:
+			sig[i] = i%2 == 1
+		default:
+			sig[i] = i == 1 || i == n-1
+		}
+	}
+	var olds, news []*benchfmt.Result
+	for i := 0; i < n; i++ {
+		olds = append(olds, h17Result(name(i), float64(8+i), "ns/op"))
+	}
+	sym := 0
+	for i := 0; i < n; i++ {
+		v := float64(9 + 2*i)
+		if i%4 == 0 {
+			v = float64(8+i) / 2
+		}
+		if sig[i] && sym < 1 {
+			sym++
+			v = vndFloat64("new")
+			vndAssume(vndAnd(v >= 1, v <= 1e6))
+		}
+		news = append(news, h17Result(name(i), v, "ns/op"))
+	}
+	c := &Collection{DeltaTest: func(old, new *Metrics) (float64, error) {
+		for i := 0; i < n; i++ {
+			if len(old.Values) == 1 && old.Values[0] == h17Vals[i] && sig[i] {
+				return 0.001, nil
+			}
+		}
+		return 0.9, nil
+	}}
+	if ord == 3 {
+		c.Order = ByDelta
+	} else {
+		c.Order = Reverse(ByDelta)
+	}
+	c.AddResults("old", olds)
+	c.AddResults("new", news)
+	tables := c.Tables()
+	vndReach("h17:stable")
+	if len(tables) != 1 || len(tables[0].Rows) != n {
+		vndAssert(false, "one-table-n-rows")
+		return
+	}
+	t := tables[0]
+	first := func(r *Row) int {
+		for i := 0; i < n; i++ {
+			if r.Benchmark == name(i) {
+				return i
+			}
+		}
+		return -1
+	}
+	key := func(r *Row) float64 { return math.Abs(r.PctDelta) * float64(r.Change) }
+	less := func(a, b *Row) bool {
+		if ord == 3 {
+			return key(a) < key(b)
+		}
+		return key(b) < key(a)
+	}
+	got := ""
+	for i := 0; i+1 < len(t.Rows); i++ {
+		a, b := t.Rows[i], t.Rows[i+1]
+		vndAssert(!less(b, a), "rows-sorted-by-the-given-order")
+		if !less(a, b) && !less(b, a) {
+			vndReach("h17:tie")
+			vndAssert(first(a) < first(b), "sort-is-stable")
+		}
+	}
+	for _, r := range t.Rows {
+		got += r.Benchmark
+	}
+	vndObserveStr("rows", got)
+}
